@@ -131,7 +131,7 @@ func (op *pipelineOp) exec(fm *Frame) Exception {
 				sendStop: sendStop, sendError: sendError, readerGone: readerGone}
 			*growAccess(&fops, 1) = formOwnedPort{File: true, Chan: true}
 			nextIn = &Port{
-				File: reader, Chan: ch,
+				File: reader, Chan: ch, inputOnly: true,
 				// Store in input port for ease of retrieval later
 				sendStop: sendStop, sendError: sendError, readerGone: readerGone}
 		}
